@@ -446,7 +446,7 @@ def do_randlist(job):
     cnt = {"transitions": 0, "evaluations": 0}
     states = set()
     T = vsc.int_t if signed else vsc.bit_t
-    dom = list(range(-(1 << (w - 1)), 1 << (w - 1))) if signed else list(range(1 << w))
+    lo, hi = (-(1 << (w - 1)), (1 << (w - 1)) - 1) if signed else (0, (1 << w) - 1)
 
     @vsc.randobj
     class RL(object):
@@ -454,7 +454,7 @@ def do_randlist(job):
             self.l = vsc.rand_list_t(T(w), 2)
             self.s = (vsc.rand_int_t if signed else vsc.rand_bit_t)(w)
     o = RL()
-    menu = dom if w <= 4 else sorted(set([dom[0], dom[0] + 1, -1 if signed else 1, 0, 1, dom[-1] - 1, dom[-1]]))
+    menu = list(range(lo, hi + 1)) if w <= 4 else sorted(set([lo, lo + 1, -1 if signed else 1, 0, 1, hi - 1, hi]))
     for a in menu:
         for b in (menu if w <= 3 else [menu[0], menu[-1], 0]):
             try:
